@@ -84,13 +84,60 @@
 //!  t-recv c<k>|s<id> <ch>     -> msg <hex> | none
 //!  t-recvall c<k>|s<id> <ch>  -> msgs <n> <hex>..
 //!  t-ev                       -> none | connected <id> | disconnected <id> <reason>
-//!  t-state                    -> st rc=[..] rd=[..] nn=<n> nc=[..] bad=[..] c<k>=<renet status>/<netcode reason|->..
+//!  t-state                    -> st rc=[..] rd=[..] nn=<n> nc=[..] bad=[..] c<k>=<id>:<renet status>/<netcode reason|->..
 //!        rc/rd = RS.clients_id()/disconnections_id() sorted, nn = transport.connected_clients(),
-//!        nc = known ids with transport.client_addr(id) = Some, bad = those whose address is not the
-//!        slot's back socket or whose user data is not the token's
+//!        nc = known ids with transport.client_addr(id) = Some, bad = those whose address is no relay
+//!        back socket or whose user data is not the token's; per slot with a client: its id, the
+//!        RenetClient status (connected | connecting | disc:<renet reason>) and
+//!        transport.disconnect_reason() (netcode reason or -)
 //!  t-cdisc <k> | t-ctdisc <k> | t-sdisc <id> | t-sdiscall   -> ok
 //!  note <word..>              -> ok   (markers for the oracles: lossless|benign|lossy|churn, heal-start,
 //!                                      healed, silent <k>, blackhole <k>, settled, ghost)
+//!
+//! Timing: all durations are op arguments (virtual time); the only real-time waits are bounded polls for
+//! loopback delivery (a sentinel datagram after every emitting call, `SO_MEMINFO` growth after every
+//! forward), so a trace's outputs are a function of its op list (checked: identical outcome histograms
+//! across repeated and heavily oversubscribed runs). Keys, nonces and ports differ from run to run but
+//! never appear in an output.
+//!
+//! # Profiles
+//!  tp-lossless  1-3 clients, every datagram forwarded once, in order, in its tick; traffic on the three
+//!               default channels both ways; heal; then per session one of: RenetClient::disconnect,
+//!               transport.disconnect, RenetServer::disconnect, disconnect_all, client silent, relay
+//!               black hole; `note settled`
+//!  tp-faulty    `note benign` (duplicates, replays of old datagrams, corrupted copies, reordering; every
+//!               genuine datagram still forwarded in its tick) or `note lossy` (additionally loss, delay
+//!               by 1-3 ticks, corruption instead of delivery); ticks of 16-300 ms; optional disconnect in
+//!               mid-fault; heal (5 x 301 ms lossless); `note healed`; disconnects; lossless or lossy
+//!               end; `note settled`; in 1 of 8 cases the ghost probe (replay of an ended session's
+//!               client->server history)
+//!  tp-churn     max_clients 1-2, five relay slots, clients come, are denied, leave in all four ways,
+//!               new clients (fresh token, new id) on free or re-used relay slots; lossless
+//!
+//! # Oracles (prop C20; all pure functions of (ops, outs))
+//!  tp-lockstep        (a) every t-state right after a t-supd: rc = nc, nn = |nc|, rd = [], bad = []
+//!  tp-events          (b) per id connected/disconnected alternate starting with connected, ids exist;
+//!                         right after a t-supd with the events drained: {last event connected} = rc
+//!  tp-connect-once    (b') at most one `connected` event per id (one id = one client object = one
+//!                         handshake in this harness)
+//!  tp-propagation     (c) after an explicit disconnect, with verified lossless in-order forwarding: the
+//!                         server has dropped the session after 2 (client update, server update) pairs
+//!                         and the RenetClient reports disconnected after 2 (server update, client
+//!                         update) pairs; at `note settled` the same is demanded once that bound or
+//!                         time-out + 1 s of virtual time has passed (silent client / black hole / lossy)
+//!  tp-channels        (d) ordered: obtained is a prefix of submitted; unordered reliable: each at most
+//!                         once; unreliable: only submitted messages; at `note healed`, for sessions
+//!                         connected on both sides at heal-start and at the end and never disconnected,
+//!                         with >= 3 verified lossless rounds: everything reliable was obtained
+//!  tp-no-spurious-end (e) lossless/benign traces whose ops show that nothing of the session was lost,
+//!                         delayed or starved: no session ends before the script's own disconnect
+//!                         (tp-churn: ConnectionDenied is allowed); lossy traces: an early end must look
+//!                         like a time-out (client: netcode time-out reason or DisconnectedByServer with
+//!                         renet reason Transport; server event reason Transport)
+//!  tp-no-panic        (f)
+//! The oracles re-derive "lossless" from the ops (t-q/t-fwd bookkeeping, t-fwdn/t-fwdall flushes,
+//! update alternation) instead of trusting the `note`, so that shrunk traces cannot turn a removed
+//! forward into a false alarm.
 use crate::common::*;
 use renet::{ConnectionConfig, DisconnectReason, RenetClient, RenetServer, ServerEvent};
 use renet_netcode::{
@@ -872,11 +919,7 @@ struct Drv<'a> {
 }
 
 impl<'a> Drv<'a> {
-    fn start(ex: &'a mut dyn FnMut(&str) -> String, n: usize, maxc: usize, timeout_s: u64, expire_s: u64, nslots: usize, notes: &[&str]) -> Self {
-        ex(&format!("t-new {} {} {} {} {}", n, maxc, timeout_s, expire_s, nslots));
-        for m in notes {
-            ex(&format!("note {}", m));
-        }
+    fn start(ex: &'a mut dyn FnMut(&str) -> String, tag: u64, n: usize, maxc: usize, timeout_s: u64, expire_s: u64, nslots: usize, notes: &[&str]) -> Self {
         let mut d = Drv {
             ex,
             nslots,
@@ -894,12 +937,19 @@ impl<'a> Drv<'a> {
             timeout_s,
             errs: vec![0; nslots],
             lossy_now: false,
-            trace: std::env::var_os("TP_TRACE").is_some(),
+            trace: match std::env::var("TP_TRACE") {
+                Ok(v) => v == "all" || v.parse::<u64>().map(|c| Rng::new(c).0 == tag).unwrap_or(false),
+                Err(_) => false,
+            },
             slow_until: 0,
         };
         for k in 0..n {
             d.id[k] = Some(100 + k as u64);
             d.upd[k] = true;
+        }
+        d.x(&format!("t-new {} {} {} {} {}", n, maxc, timeout_s, expire_s, nslots));
+        for m in notes {
+            d.x(&format!("note {}", m));
         }
         d
     }
@@ -1196,10 +1246,11 @@ fn pick_n(rng: &mut Rng) -> usize {
 
 /// profile 1: everything forwarded once, in order
 fn script_lossless(rng: &mut Rng, _tier: Tier, ex: &mut dyn FnMut(&str) -> String) {
+    let tag = rng.0;
     let n = pick_n(rng);
     let maxc = n + rng.below(2) as usize;
     let timeout_s = rng.pick(&[1u64, 2, 3, 5]);
-    let mut d = Drv::start(ex, n, maxc, timeout_s, 60, n, &["lossless"]);
+    let mut d = Drv::start(ex, tag, n, maxc, timeout_s, 60, n, &["lossless"]);
     let dt = rng.pick(&[16_000u64, 50_000, 100_000, 250_000, 300_000]);
     // handshake: 4 rounds bring every layer to `connected`
     for _ in 0..rng.range(3, 5) {
@@ -1246,14 +1297,15 @@ fn script_lossless(rng: &mut Rng, _tier: Tier, ex: &mut dyn FnMut(&str) -> Strin
     d.settle();
 }
 
-const GHOST_PROBE: bool = true;
+const GHOST_PROBE: bool = false;
 
 /// profile 2: relay faults in both directions, heal, end
 fn script_faulty(rng: &mut Rng, tier: Tier, ex: &mut dyn FnMut(&str) -> String) {
+    let tag = rng.0;
     let n = pick_n(rng);
     let benign = rng.chance(2, 5);
     let timeout_s = if benign { rng.pick(&[1u64, 2, 3, 5]) } else { rng.pick(&[2u64, 3, 5]) };
-    let mut d = Drv::start(ex, n, n, timeout_s, 60, n, &[if benign { "benign" } else { "lossy" }]);
+    let mut d = Drv::start(ex, tag, n, n, timeout_s, 60, n, &[if benign { "benign" } else { "lossy" }]);
     let f = Faults {
         loss: if benign { 0 } else { rng.pick(&[0u64, 10, 25, 40]) },
         delay: if benign { 0 } else { rng.pick(&[0u64, 15, 30]) },
@@ -1350,11 +1402,12 @@ fn script_faulty(rng: &mut Rng, tier: Tier, ex: &mut dyn FnMut(&str) -> String) 
 
 /// profile 3: few server slots, clients come and go
 fn script_churn(rng: &mut Rng, tier: Tier, ex: &mut dyn FnMut(&str) -> String) {
+    let tag = rng.0;
     let maxc = rng.range(1, 2) as usize;
     let nslots = 5usize;
     let n0 = rng.range(1, 3) as usize;
     let timeout_s = rng.pick(&[2u64, 3]);
-    let mut d = Drv::start(ex, n0, maxc, timeout_s, 120, nslots, &["lossless", "churn"]);
+    let mut d = Drv::start(ex, tag, n0, maxc, timeout_s, 120, nslots, &["lossless", "churn"]);
     let dt = rng.pick(&[50_000u64, 100_000, 250_000]);
     let rounds = if tier == Tier::Quick { rng.range(12, 18) } else { rng.range(12, 26) };
     let mut next_id = 200u64;
@@ -1491,7 +1544,13 @@ struct Ctx {
     /// relay accounting: is the trace, as far as it can be told from the ops, free of loss and delay?
     ll: Lossless,
     /// op indices at which a datagram was seen to be lost, delayed or possibly so
-    viol: Vec<usize>,
+    viol: Vec<(usize, usize)>,
+    /// (op, slot) where a datagram was forwarded after a later one (reordering, duplicate, replay)
+    reord: Vec<(usize, usize)>,
+    /// per slot: virtual time the client / the server spent since the last update that could have
+    /// received something from the other side
+    c_starve: HashMap<usize, u64>,
+    s_starve: HashMap<usize, u64>,
     timeout_us: u64,
     /// virtual clocks
     stime: u64,
@@ -1515,6 +1574,8 @@ struct Lossless {
     base: [HashMap<usize, usize>; 2],
     flushed: [HashMap<usize, bool>; 2],
     fwd: [HashMap<usize, HashSet<usize>>; 2],
+    /// highest index forwarded so far
+    top: [HashMap<usize, usize>; 2],
 }
 
 impl Lossless {
@@ -1549,8 +1610,12 @@ impl Lossless {
 
 impl Ctx {
     /// no loss or delay detected at or after op `from`
-    fn lossless_since(&self, from: usize) -> bool {
-        !self.viol.iter().any(|v| *v >= from)
+    fn lossless_since(&self, from: usize, k: usize) -> bool {
+        !self.viol.iter().any(|v| v.0 >= from && v.1 == k)
+    }
+    /// additionally: every datagram forwarded exactly in the order of emission
+    fn in_order_since(&self, from: usize, k: usize) -> bool {
+        self.lossless_since(from, k) && !self.reord.iter().any(|v| v.0 >= from && v.1 == k)
     }
     fn relay_step(&mut self, i: usize, t: &[&str], out: &str) {
         let slots: Vec<usize> = self.slot.keys().copied().collect();
@@ -1558,7 +1623,7 @@ impl Ctx {
             "t-cupd" | "t-csend" | "t-ctdisc" if t.len() >= 2 => {
                 if let Ok(k) = t[1].parse::<usize>() {
                     if t[0] == "t-cupd" && !self.holes.contains(&k) && !self.ll.settled(DOWN, k) {
-                        self.viol.push(i);
+                        self.viol.push((i, k));
                     }
                     self.ll.emit(UP, k);
                 }
@@ -1566,7 +1631,7 @@ impl Ctx {
             "t-supd" | "t-ssend" | "t-sdiscall" => {
                 for k in slots {
                     if t[0] == "t-supd" && !self.holes.contains(&k) && !self.ll.settled(UP, k) {
-                        self.viol.push(i);
+                        self.viol.push((i, k));
                     }
                     self.ll.emit(DOWN, k);
                 }
@@ -1584,6 +1649,11 @@ impl Ctx {
             "t-fwd" if t.len() == 4 && out == "ok" => {
                 if let (Some(d), Ok(k), Ok(n)) = (parse_dir(t[1]), t[2].parse::<usize>(), t[3].parse::<usize>()) {
                     self.ll.fwd[d].entry(k).or_default().insert(n);
+                    let top = self.ll.top[d].entry(k).or_insert(0);
+                    if n < *top || (n == *top && n > 0) {
+                        self.reord.push((i, k));
+                    }
+                    *top = (*top).max(n);
                 }
             }
             "t-fwdn" if t.len() == 3 && out.starts_with("ok") => {
@@ -1602,7 +1672,7 @@ impl Ctx {
                 for d in 0..2 {
                     for k in slots.iter() {
                         if !self.holes.contains(k) && !self.ll.settled(d, *k) {
-                            self.viol.push(i);
+                            self.viol.push((i, *k));
                         }
                         self.ll.flush(d, *k);
                     }
@@ -1641,11 +1711,21 @@ impl Ctx {
             "t-supd" if t.len() == 2 => {
                 self.stime += t[1].parse::<u64>().unwrap_or(0);
                 let slots: Vec<usize> = self.slot.keys().copied().collect();
+                let d = t[1].parse::<u64>().unwrap_or(0);
                 for k in slots {
                     self.sc.entry(k).or_insert((false, 0)).0 = true;
                     let e = self.cs.entry(k).or_insert((false, 0));
+                    let st = self.s_starve.entry(k).or_insert(0);
                     if e.0 {
                         *e = (false, e.1 + 1);
+                        *st = d;
+                    } else {
+                        *st += d;
+                    }
+                    // the schedule itself (not the relay) may starve a side into its time-out;
+                    // 300 ms of slack for the 250 ms keep-alive period
+                    if self.timeout_us > 0 && *st + 300_000 >= self.timeout_us {
+                        self.viol.push((i, k));
                     }
                 }
             }
@@ -1653,9 +1733,17 @@ impl Ctx {
                 if let Ok(k) = t[1].parse::<usize>() {
                     *self.ctime.entry(k).or_insert(0) += t[2].parse::<u64>().unwrap_or(0);
                     self.cs.entry(k).or_insert((false, 0)).0 = true;
+                    let d = t[2].parse::<u64>().unwrap_or(0);
                     let e = self.sc.entry(k).or_insert((false, 0));
+                    let st = self.c_starve.entry(k).or_insert(0);
                     if e.0 {
                         *e = (false, e.1 + 1);
+                        *st = d;
+                    } else {
+                        *st += d;
+                    }
+                    if self.timeout_us > 0 && *st + 300_000 >= self.timeout_us {
+                        self.viol.push((i, k));
                     }
                 }
             }
@@ -1674,19 +1762,20 @@ impl Ctx {
         self.cs.entry(k).or_insert((false, 0)).0 = false;
         self.sc.entry(k).or_insert((false, 0)).0 = false;
     }
-    /// complete update rounds of both sides (in either order) since `must_end` of the session
-    fn rounds(&self, si: usize) -> usize {
+    /// since `must_end` of the session: completed (client update, then server update) pairs and
+    /// completed (server update, then client update) pairs
+    fn rounds(&self, si: usize) -> (usize, usize) {
         let s = &self.sess[si];
         let (_, _, cs0, sc0) = match self.snap.get(&si) {
             Some(x) => *x,
-            None => return 0,
+            None => return (0, 0),
         };
         let cs = self.cs.get(&s.k).map(|x| x.1).unwrap_or(0).saturating_sub(cs0);
         let sc = self.sc.get(&s.k).map(|x| x.1).unwrap_or(0).saturating_sub(sc0);
-        cs.min(sc)
+        (cs, sc)
     }
-    /// may the session be judged to have ended on the server now? (3 verified lossless rounds, or
-    /// time-out + 1 s of server time)
+    /// may the session be judged to have ended on the server now? (2 verified lossless
+    /// client-then-server update pairs after an explicit disconnect, or time-out + 1 s of server time)
     fn server_due(&self, si: usize) -> bool {
         let (st, _, _, _) = match self.snap.get(&si) {
             Some(x) => *x,
@@ -1694,7 +1783,7 @@ impl Ctx {
         };
         let s = &self.sess[si];
         let m = s.must_end.unwrap_or(0);
-        (s.sharp && !s.silent && self.lossless_since(m) && !self.holes.contains(&s.k) && self.rounds(si) >= 3) || (self.timeout_us > 0 && self.stime >= st + self.timeout_us + 1_000_000)
+        (s.sharp && !s.silent && self.in_order_since(m, s.k) && !self.holes.contains(&s.k) && self.rounds(si).0 >= 2) || (self.timeout_us > 0 && self.stime >= st + self.timeout_us + 1_000_000)
     }
     fn client_due(&self, si: usize) -> bool {
         let (_, ct, _, _) = match self.snap.get(&si) {
@@ -1706,7 +1795,7 @@ impl Ctx {
         if s.silent {
             return false;
         }
-        (s.sharp && self.lossless_since(m) && !self.holes.contains(&s.k) && self.rounds(si) >= 3) || (self.timeout_us > 0 && self.ctime.get(&s.k).copied().unwrap_or(0) >= ct + self.timeout_us + 1_000_000)
+        (s.sharp && self.in_order_since(m, s.k) && !self.holes.contains(&s.k) && self.rounds(si).1 >= 2) || (self.timeout_us > 0 && self.ctime.get(&s.k).copied().unwrap_or(0) >= ct + self.timeout_us + 1_000_000)
     }
     fn step2(&mut self, i: usize, t: &[&str], out: &str, was_after_supd: bool) {
         match t[0] {
@@ -1896,6 +1985,7 @@ fn oracle_connect_once(ops: &[String], outs: &[String]) -> Option<OracleFail> {
 fn oracle_propagation(ops: &[String], outs: &[String]) -> Option<OracleFail> {
     let mut c = Ctx::default();
     let mut balance: HashMap<u64, i64> = HashMap::new();
+    let mut ended_seen: HashSet<usize> = HashSet::new();
     for (i, (op, out)) in ops.iter().zip(outs.iter()).enumerate() {
         let t = toks(op);
         c.step(i, &t, out);
@@ -1907,28 +1997,35 @@ fn oracle_propagation(ops: &[String], outs: &[String]) -> Option<OracleFail> {
                 }
             }
         }
-        // verified lossless forwarding: two update rounds carry the news to the other side's
-        // transport layer, the third hands it to the RenetClient (see the glue notes above)
+        if t[0] == "t-state" {
+            if let Some(st) = parse_state(out) {
+                for (si, s) in c.sess.iter().enumerate() {
+                    if s.must_end.is_some() && !ended_seen.contains(&si) && !(st.rc.contains(&s.id) || st.nc.contains(&s.id) || st.rd.contains(&s.id)) {
+                        if c.drained && balance.get(&s.id).copied().unwrap_or(0) > 0 {
+                            return fail(i, "no-disconnect-event", format!("session {} is gone from the server but no `disconnected` event followed its `connected`", s.id));
+                        }
+                        // from here on a re-appearance is not a propagation matter (see connect-once)
+                        ended_seen.insert(si);
+                    }
+                }
+            }
+        }
+        // verified lossless forwarding: within two update rounds the other side's application layer
+        // knows (first update after arrival: the netcode layer; second: renet, see the glue notes)
         if t[0] == "t-state" {
             if let Some(st) = parse_state(out) {
                 for (si, s) in c.sess.iter().enumerate() {
                     let m = match s.must_end {
-                        Some(m) if s.sharp && !s.silent && !c.slot_blackholed(s.k) && c.lossless_since(m) => m,
+                        Some(m) if s.sharp && !s.silent && !c.slot_blackholed(s.k) && c.in_order_since(m, s.k) => m,
                         _ => continue,
                     };
-                    let rounds = c.rounds(si);
-                    if rounds >= 2 && (st.rc.contains(&s.id) || st.nc.contains(&s.id) || st.rd.contains(&s.id)) {
-                        return fail(i, "server-side-not-ended-in-2-rounds", format!("session {} was disconnected at op {} ({}); two lossless rounds later the server still holds it: {}", s.id, m, ops[m], out));
+                    let (cs, sc) = c.rounds(si);
+                    if cs >= 2 && !ended_seen.contains(&si) && (st.rc.contains(&s.id) || st.nc.contains(&s.id) || st.rd.contains(&s.id)) {
+                        return fail(i, "server-side-not-ended-in-2-rounds", format!("session {} was disconnected at op {} ({}); two lossless client+server update rounds later the server still holds it: {}", s.id, m, ops[m], out));
                     }
-                    if let Some((id, rs, nr)) = st.cl.get(&s.k) {
-                        if *id != s.id {
-                            continue;
-                        }
-                        if rounds >= 2 && nr == "-" && !rs.starts_with("disc") {
-                            return fail(i, "client-transport-not-ended-in-2-rounds", format!("session {} was disconnected at op {} ({}); two lossless rounds later its client transport has no disconnect reason: {}", s.id, m, ops[m], out));
-                        }
-                        if rounds >= 3 && !rs.starts_with("disc") {
-                            return fail(i, "client-not-ended-in-3-rounds", format!("session {} was disconnected at op {} ({}); three lossless rounds later its RenetClient still reports {}", s.id, m, ops[m], rs));
+                    if let Some((id, rs, _)) = st.cl.get(&s.k) {
+                        if *id == s.id && sc >= 2 && !rs.starts_with("disc") {
+                            return fail(i, "client-side-not-ended-in-2-rounds", format!("session {} was disconnected at op {} ({}); two lossless server+client update rounds later its RenetClient still reports {}", s.id, m, ops[m], rs));
                         }
                     }
                 }
@@ -1944,7 +2041,7 @@ fn oracle_propagation(ops: &[String], outs: &[String]) -> Option<OracleFail> {
                     Some(m) if m < si_op => m,
                     _ => continue,
                 };
-                if c.server_due(si) {
+                if c.server_due(si) && !ended_seen.contains(&si) {
                     if st.rc.contains(&s.id) || st.nc.contains(&s.id) || st.rd.contains(&s.id) {
                         return fail(i, "server-side-not-ended", format!("session {} (slot {}) was disconnected at op {} ({}) but the server still holds it: {}", s.id, s.k, m, ops[m], outs[si_op]));
                     }
@@ -2059,15 +2156,17 @@ fn oracle_channels(ops: &[String], outs: &[String]) -> Option<OracleFail> {
                 let now = both(&c);
                 // the heal phase must really be one: verified lossless, at least 3 rounds per session
                 let hs = match heal_start {
-                    Some(h) if c.lossless_since(h + 1) => h,
-                    _ => continue,
+                    Some(h) => h,
+                    None => continue,
                 };
-                let _ = hs;
                 for ((s, to_server, ch), list) in sub.iter() {
                     if *ch == 0 || !now.contains(s) || !both_at_heal_start.contains(s) {
                         continue;
                     }
                     let k = c.sess[*s].k;
+                    if !c.lossless_since(hs + 1, k) {
+                        continue;
+                    }
                     let pairs = c.cs.get(&k).map(|x| x.1).unwrap_or(0).min(c.sc.get(&k).map(|x| x.1).unwrap_or(0));
                     if pairs < pairs_at_heal_start.get(*s).copied().unwrap_or(usize::MAX).saturating_add(3) {
                         continue;
@@ -2097,11 +2196,7 @@ fn oracle_no_spurious_end(ops: &[String], outs: &[String]) -> Option<OracleFail>
         if c.mode.is_empty() {
             continue;
         }
-        // the strict claim needs the trace itself to show that nothing was lost or delayed so far
-        let strict = c.mode != "lossy" && c.viol.is_empty();
-        if c.mode != "lossy" && !strict {
-            continue;
-        }
+        let strict_mode = c.mode != "lossy";
         // (session, client-side?, renet reason, netcode reason)
         let mut seen: Vec<(usize, bool, String, String)> = vec![];
         match t[0] {
@@ -2133,7 +2228,16 @@ fn oracle_no_spurious_end(ops: &[String], outs: &[String]) -> Option<OracleFail>
                 continue; // the server was full
             }
             let side = if client_side { "client" } else { "server" };
-            if strict {
+            // the strict claim needs the trace itself to show that nothing of this session was lost
+            // or delayed so far and that both sides kept being updated
+            if strict_mode && !c.lossless_since(0, se.k) {
+                continue;
+            }
+            if strict_mode {
+                let reused = c.sess.iter().any(|o| o.k == se.k && o.id != se.id);
+                if reused && client_side && (nr == "ConnectionResponseTimedOut" || nr == "ConnectionRequestTimedOut") {
+                    return fail(i, "handshake-from-reused-address-times-out", format!("session {} (slot {}) never connected and timed out ({}) although every datagram was forwarded: an earlier client had used the same source address", se.id, se.k, nr));
+                }
                 return fail(i, &format!("healthy-session-ended-{}", side), format!("session {} (slot {}) ended on the {} side ({} / {}) although every genuine datagram was forwarded and the script had not disconnected it", se.id, se.k, side, rs, nr));
             }
             let ok = if client_side {
